@@ -24,6 +24,9 @@ func genC05(seed uint64, withSpec bool) *Scenario {
 	if r.Chance(700) {
 		sc.Pool.DropPM, sc.Pool.ClearPM, sc.Pool.MissPM = 0, 0, 0
 	}
+	// a third of the runs: every task gets back its own objects only (no pool hand-overs between tasks, hence no
+	// happens-before edges from the pool that could order a race on other shared state away)
+	sc.Pool.Affinity = r.Chance(330)
 	ntasks := pick(r, []int{2, 2, 2, 3, 3, 4, 4, 6, 8})
 	big := r.Chance(25)
 	if big {
@@ -81,7 +84,7 @@ func genC05(seed uint64, withSpec bool) *Scenario {
 		// bias towards the schedule that exposes use-after-release: right after a task released an object, let
 		// somebody else run, re-borrow it (LIFO) and overwrite it, then come back
 		sc.Sched.Kind, sc.Sched.ChasePM = rt.SchedChaser, 600
-		sc.Pool.Mode = rt.PoolLIFO
+		sc.Pool.Mode, sc.Pool.Affinity = rt.PoolLIFO, false
 	}
 	coeRun := r.Chance(300) // runs exercising the package-level option setter
 	deepPair := withSpec && r.Chance(300)
